@@ -22,7 +22,26 @@ EXTENDS ZapData, Bitwise, Json, IOUtils
 
 Big == -1     \* a value that does not fit TLC's 32-bit integers (e.g. the "not uninverted" marker 2^64-1)
 
-B8(F, p) == F[p + 1]
+\* reads are total: a file that is not laid out as documented decodes to something else (a reported
+\* difference), it does not stop the evaluation
+B8(F, p) == IF p >= 0 /\ p < Len(F) THEN F[p + 1] ELSE 0
+NameAt(names, i) == IF i >= 0 /\ i < Len(names) THEN names[i + 1] ELSE <<255, 255, 255, 255>>
+\* a count or length no file of this size can hold is read as 0 (loops over it end at once)
+Cap(F, v) == IF v < 0 \/ v > Len(F) THEN 0 ELSE v
+SafeSub(s, m, n) == SubSeq(s, IF m < 1 THEN 1 ELSE m, IF n > Len(s) THEN Len(s) ELSE n)
+
+\* Left fold of step over lo .. hi-1 with a record as state, by halving.  TLC's cost of a recursion grows with
+\* the square of its depth (each level extends the context that name lookups walk), so every loop over
+\* something as long as a postings list or a file goes through this: depth log2(hi - lo).  The test on the
+\* left half's result makes TLC evaluate it before descending into the right half.
+FoldRange(step(_, _), lo, hi, st0) ==
+  LET RECURSIVE R(_, _, _)
+      R(a, b, st) == IF b <= a THEN st
+                     ELSE IF b = a + 1 THEN step(st, a)
+                     ELSE LET m == (a + b) \div 2
+                              s1 == R(a, m, st)
+                          IN  IF DOMAIN s1 = {} THEN s1 ELSE R(m, b, s1)
+  IN  R(lo, hi, st0)
 
 \* big-endian unsigned integer of n bytes at p; Big when it does not fit
 BE(F, p, n) ==
@@ -43,7 +62,7 @@ Uvarint(F, p) ==
             ELSE R(i + 1, acc2, IF i < 4 THEN mult * 128 ELSE mult)
   IN  R(0, 0, 1)
 
-Slice(F, p, n) == SubSeq(F, p + 1, p + n)
+Slice(F, p, n) == SafeSub(F, p + 1, p + n)
 
 ----------------------------------------------------------------------------
 (* CRC-32 (IEEE, reflected, polynomial 0xEDB88320) on <<hi16, lo16>> pairs *)
@@ -56,11 +75,21 @@ CrcEntry(i) ==
       R(k, c) == IF k = 0 THEN c ELSE R(k - 1, IF c[2] % 2 = 1 THEN XorP(Shr1(c), Poly) ELSE Shr1(c))
   IN  R(8, <<0, i>>)
 CrcTable == [i \in 0..255 |-> CrcEntry(i)]
-Crc32(F, n) ==      \* of the first n bytes
+\* of the first n bytes.  TLC's cost of a recursion grows with the square of its depth (every level extends
+\* the context that name lookups walk), so the bytes are folded by halving: depth log2(n) + 64 instead of n
+\* (a 158 kB file: 2 s instead of minutes)
+CrcRun(F, from, to, c0) ==
   LET RECURSIVE R(_, _)
-      R(i, c) == IF i = n THEN XorP(c, <<65535, 65535>>)
+      R(i, c) == IF i = to THEN c
                  ELSE R(i + 1, XorP(Shr8(c), CrcTable[(c[2] ^^ B8(F, i)) % 256]))
-  IN  R(0, <<65535, 65535>>)
+  IN  R(from, c0)
+RECURSIVE CrcRange(_, _, _, _)
+CrcRange(F, from, to, c) ==
+  IF to - from <= 64 THEN CrcRun(F, from, to, c)
+  ELSE LET mid == (from + to) \div 2
+           c1 == CrcRange(F, from, mid, c)
+       IN  IF c1[1] >= 0 THEN CrcRange(F, mid, to, c1) ELSE c1       \* the test forces c1 before descending
+Crc32(F, n) == XorP(CrcRange(F, 0, n, <<65535, 65535>>), <<65535, 65535>>)
 
 ----------------------------------------------------------------------------
 (* footer: D# SF F S FDV CF V CC *)
@@ -114,27 +143,27 @@ OffsetOf(v) == IF v[1] # 0 \/ v[2] # 0 \/ v[3] >= 32768 THEN Big ELSE v[4] + v[3
 IntStream(F, a) ==
   LET nc == Uvarint(F, a)
       RECURSIVE Offs(_, _, _)
-      Offs(k, p, acc) == IF k = nc.v THEN [offs |-> acc, data |-> p]
+      Offs(k, p, acc) == IF k = Cap(F, nc.v) THEN [offs |-> acc, data |-> p]
                          ELSE LET u == Uvarint(F, p) IN Offs(k + 1, p + u.n, Append(acc, u.v))
   IN  Offs(0, a + nc.n, <<>>)
 
 ChunkStart(st, c) == st.data + (IF c = 0 THEN 0 ELSE st.offs[c])      \* chunk numbers from 0
 
 \* k uvarints starting at p: [vals, p]
-ReadN(F, p, k) ==
-  LET RECURSIVE R(_, _, _)
-      R(i, q, acc) == IF i = k THEN [vals |-> acc, p |-> q] ELSE LET u == Uvarint(F, q) IN R(i + 1, q + u.n, Append(acc, u.v))
-  IN  R(0, p, <<>>)
+ReadN(F, p, k0) ==
+  LET k == IF k0 < 0 \/ k0 > Len(F) THEN 0 ELSE k0       \* a count no file of this length can hold
+      one(st, i) == LET u == Uvarint(F, st.p) IN [vals |-> Append(st.vals, u.v), p |-> st.p + u.n]
+  IN  FoldRange(one, 0, k, [vals |-> <<>>, p |-> p])
 
 \* locations of one hit: a byte count, then per location field, pos, start, end, #array positions, positions
 ReadLocs(F, p, names) ==
   LET sz == Uvarint(F, p)
-      stop == p + sz.n + sz.v
+      stop == IF sz.v < 0 \/ p + sz.n + sz.v > Len(F) THEN Len(F) ELSE p + sz.n + sz.v
       RECURSIVE R(_, _)
       R(q, acc) == IF q >= stop THEN acc
                    ELSE LET h == ReadN(F, q, 5)
                             ap == ReadN(F, h.p, h.vals[5])
-                        IN  R(ap.p, Append(acc, [f |-> names[h.vals[1] + 1], p |-> h.vals[2], s |-> h.vals[3], e |-> h.vals[4], ap |-> ap.vals]))
+                        IN  R(ap.p, Append(acc, [f |-> NameAt(names, h.vals[1]), p |-> h.vals[2], s |-> h.vals[3], e |-> h.vals[4], ap |-> ap.vals]))
   IN  [locs |-> R(p + sz.n, <<>>), p |-> stop]
 
 \* the hits of a general postings record at offset a
@@ -146,20 +175,19 @@ Postings(F, path, a, ft, names) ==
       cs  == ChunkSizeOf(ft.mode, Len(docs), ft.numDocs)
       tfs == IntStream(F, tf.v)
       lcs == IF lc.v = 0 THEN [offs |-> <<>>, data |-> 0] ELSE IntStream(F, lc.v)
-      RECURSIVE R(_, _, _, _, _)
-      R(i, chunk, tp, lp, acc) ==
-        IF i > Len(docs) THEN acc
-        ELSE LET d  == docs[i]
-                 c  == d \div cs
-                 tp1 == IF c # chunk THEN ChunkStart(tfs, c) ELSE tp
-                 lp1 == IF c # chunk /\ lc.v # 0 THEN ChunkStart(lcs, c) ELSE lp
-                 fh == Uvarint(F, tp1)
-                 fr == fh.v \div 2
-                 hasLocs == fh.v % 2 = 1
-                 nm == IF fr > 0 THEN Uvarint(F, tp1 + fh.n) ELSE [v |-> 0, n |-> 0]
-                 ls == IF hasLocs THEN ReadLocs(F, lp1, names) ELSE [locs |-> <<>>, p |-> lp1]
-             IN  R(i + 1, c, tp1 + fh.n + nm.n, ls.p, Append(acc, [d |-> d, fr |-> fr, nm |-> nm.v, locs |-> ls.locs]))
-  IN  R(1, -1, 0, 0, <<>>)
+      hit(st, i) ==
+        LET d  == docs[i]
+            c  == d \div cs
+            tp1 == IF c # st.chunk THEN ChunkStart(tfs, c) ELSE st.tp
+            lp1 == IF c # st.chunk /\ lc.v # 0 THEN ChunkStart(lcs, c) ELSE st.lp
+            fh == Uvarint(F, tp1)
+            fr == fh.v \div 2
+            hasLocs == fh.v % 2 = 1
+            nm == IF fr > 0 THEN Uvarint(F, tp1 + fh.n) ELSE [v |-> 0, n |-> 0]
+            ls == IF hasLocs THEN ReadLocs(F, lp1, names) ELSE [locs |-> <<>>, p |-> lp1]
+        IN  [chunk |-> c, tp |-> tp1 + fh.n + nm.n, lp |-> ls.p,
+             acc |-> Append(st.acc, [d |-> d, fr |-> fr, nm |-> nm.v, locs |-> ls.locs])]
+  IN  FoldRange(hit, 1, Len(docs) + 1, [chunk |-> -1, tp |-> 0, lp |-> 0, acc |-> <<>>]).acc
 
 \* dictionary of the inverted-index section at address a (0 = the field has none): term -> hits
 InvertedIndex(F, path, a, ft, names) ==
@@ -187,11 +215,11 @@ StoredRecord(F, path, a, names) ==
       idv == Slice(F, dp, idl.v)
       raw == IF cds.v - idl.v = 0 THEN <<>> ELSE Leaf(path, "snappy", dp + idl.v, cds.v - idl.v)
       RECURSIVE R(_, _)
-      R(q, acc) == IF q >= mp + mds.v THEN acc
+      R(q, acc) == IF q >= mp + mds.v \/ q >= Len(F) THEN acc
                    ELSE LET h == ReadN(F, q, 5)
                             ap == ReadN(F, h.p, h.vals[5])
-                        IN  R(ap.p, Append(acc, [f |-> names[h.vals[1] + 1], ty |-> h.vals[2],
-                                                 v |-> SubSeq(raw, h.vals[3] + 1, h.vals[3] + h.vals[4]), ap |-> ap.vals]))
+                        IN  R(ap.p, Append(acc, [f |-> NameAt(names, h.vals[1]), ty |-> h.vals[2],
+                                                 v |-> SafeSub(raw, h.vals[3] + 1, h.vals[3] + h.vals[4]), ap |-> ap.vals]))
   IN  << [f |-> IDName, ty |-> 116, v |-> idv, ap |-> <<>>] >> \o R(mp + idl.n, <<>>)
 
 StoredAll(F, path, ft, names) ==
@@ -200,17 +228,16 @@ StoredAll(F, path, ft, names) ==
 ----------------------------------------------------------------------------
 (* doc values of one field: [start, end) with a 16-byte trailer (length of the chunk offsets, chunk count) *)
 SplitFF(bs) ==
-  LET RECURSIVE R(_, _, _)
-      R(i, cur, acc) == IF i > Len(bs) THEN acc
-                        ELSE IF bs[i] = 255 THEN R(i + 1, <<>>, acc \cup {cur}) ELSE R(i + 1, Append(cur, bs[i]), acc)
-  IN  R(1, <<>>, {})
+  LET one(st, i) == IF bs[i] = 255 THEN [cur |-> <<>>, acc |-> st.acc \cup {st.cur}]
+                    ELSE [cur |-> Append(st.cur, bs[i]), acc |-> st.acc]
+  IN  FoldRange(one, 1, Len(bs) + 1, [cur |-> <<>>, acc |-> {}]).acc
 
 DocValues(F, path, a) ==       \* doc -> set of terms, for the documents that have an entry
   LET dvs == Uvarint(F, a)
       dve == Uvarint(F, a + dvs.n)
   IN  IF dvs.v = Big THEN <<>>
       ELSE
-        LET nc   == BE(F, dve.v - 8, 8)
+        LET nc   == Cap(F, BE(F, dve.v - 8, 8))
             olen == BE(F, dve.v - 16, 8)
             offs == ReadN(F, dve.v - 16 - olen, nc).vals
             chunk(c) ==
@@ -220,9 +247,9 @@ DocValues(F, path, a) ==       \* doc -> set of terms, for the documents that ha
                   ELSE LET nd == Uvarint(F, s)
                            hdr == ReadN(F, s + nd.n, 2 * nd.v)
                            data == Leaf(path, "snappy", hdr.p, e - hdr.p)
-                       IN  [k \in 1..nd.v |->
+                       IN  [k \in 1..(Len(hdr.vals) \div 2) |->
                               [d |-> hdr.vals[2 * k - 1],
-                               ts |-> SplitFF(SubSeq(data, (IF k = 1 THEN 0 ELSE hdr.vals[2 * k - 2]) + 1, hdr.vals[2 * k]))]]
+                               ts |-> SplitFF(SafeSub(data, (IF k = 1 THEN 0 ELSE hdr.vals[2 * k - 2]) + 1, hdr.vals[2 * k]))]]
         IN  Flatten([c \in 1..nc |-> chunk(c)])
 
 ----------------------------------------------------------------------------
@@ -236,7 +263,7 @@ Thesaurus(F, path, a) ==
       tp == tl.v + vl.n + vl.v
       ns == Uvarint(F, tp)
       RECURSIVE T(_, _, _)
-      T(k, q, acc) == IF k = ns.v THEN acc
+      T(k, q, acc) == IF k = Cap(F, ns.v) THEN acc
                       ELSE LET h == ReadN(F, q, 2) IN
                            T(k + 1, h.p + h.vals[2], acc @@ (h.vals[1] :> Slice(F, h.p, h.vals[2])))
       tab == T(0, tp + ns.n, <<>>)
